@@ -91,6 +91,14 @@ CHECKS = {
          "For sampled written blocks: single-bit flips over all slots and the checksum trailer, bursts, zeroed tails x {no backup, valid previous image, bad-checksum backup, empty backup} x {Get, Update, UpdateNoLocks, Remove} through a fresh registry: without a valid backup the operation must fail and leave the block bytes unchanged; with one, the restored image is served.",
          "Trusted: simulator, CRC computation. This property has no schedule dimension; the simulator contributes the disk seam, cold restarts and the seeded sampling of blocks. All-zero blocks are valid by design and skipped.",
          "7/C23"),
+ "C25": (ENUM, "systematic enumeration of shard damage subsets x damage kinds and of failing shard-write subsets over the real EC blob store on files; exact-bytes / error / no-crash oracle",
+         "For (d,p) up to (4,2) and blob sizes incl. sizes not divisible by d: all subsets of shard files x damage kinds (missing, truncations incl. below/at/just above the metadata size, payload and metadata bit flips, PRNG-mixed kinds) and all subsets of failing shard writes; <= p damaged must return the exact bytes, > p an error (never different bytes), a panic or a dead process is a violation, Add must fail iff more than p writes fail.",
+         "Trusted: the harness' damage injection on real files. No schedule dimension (damage happens between operations); TaskRunner tasks run inline so a panic inside a shard task is observable; cases with large shards run in a child process so that a codec goroutine panic is reported instead of killing the check.",
+         "7/C25"),
+ "C26": (ENUM, "systematic enumeration: damage subsets within parity, repairing read, byte comparison of every shard file with the fresh encode, then all subsets of p further failures",
+         "Repair enabled: for (d,p) up to (4,2), all damage subsets of size 1..p x damage kinds; after one successful read every shard file must be byte-identical to the originally encoded shard and every subset of p further removed shards must still read back exactly.",
+         "Trusted: as C25.",
+         "7/C26"),
 }
 
 NOT_APPLICABLE = {
